@@ -224,31 +224,9 @@ def run(R):
     # (4) padding: decided semantically by clause_padding_partitions (known-bits domain); the earlier presence rule
     # ("at least two data-dependent tests after the last coefficient") fired on behaviour-preserving rewrites of the
     # scans with Iterator::any and was withdrawn
-    # (7) reader reaches the end of the buffer
-    R.check(cursors and max(c for c in cursors if c is not None) >= 0 if cursors and any(c is not None for c in cursors) else False, "C07-cursor", site,
-            f"the cursor after the last terminator may equal the buffer's bit length (bound {max([c for c in cursors if c is not None], default=None)}): exactly-full encodings are readable",
-            f"the cursor after the last terminator is at most bitlen{min([c for c in cursors if c is not None], default='?')}: an encoding that fills the budget exactly (which compress emits) is rejected",
-            key="cursor")
-    # (7b) at the last push, in every loop-peeling partition (empty / non-empty unary part), the terminator may sit on the last buffer bit
-    if push_sites:
-        groups = {}
-        for b, c, lp in push_cursor:
-            if b == push_sites[-1] and c is not None:
-                groups[lp] = max(groups.get(lp, -10 ** 9), c)
-        ok = len(groups) >= 2 and all(v == -1 for v in groups.values())
-        R.check(ok, "C07-cursor", site + " (last coefficient)",
-                f"both with an empty and with a non-empty unary part ({sorted(groups)}) the terminator of the last coefficient may sit on the last buffer bit",
-                f"terminator position bound per loop-peeling class {groups}: in some class the last buffer bit cannot hold the terminator, so an exactly-full encoding (which compress emits) is rejected",
-                key="cursor-loop")
-    # (8) every unary run ends on a terminator bit that was read inside the buffer
-    for bb in sorted({b for b, _ in exits}):
-        bs = [c for b, c in exits if b == bb]
-        ok = all(c is not None and c <= -1 for c in bs)
-        R.check(ok, "C07-terminator", f"{site} unary-run exit at {body.span_of(bb)}", "the run is left (towards acceptance) only with the cursor strictly inside the buffer, i.e. on a terminator bit that was read",
-                f"the unary run can be left with the cursor at bitlen+{max([c for c in bs if c is not None], default='?')}: a truncated encoding without terminator bit is accepted",
-                key=f"terminator|{sorted({b for b, _ in exits}).index(bb)}")
-    R.check(len(unary_loops) >= 2 and len({b for b, _ in exits}) >= 2, "C07-terminator", site, f"{len(unary_loops)} unary-run loops, {len({b for b, _ in exits})} accepting exits examined",
-            f"{len(unary_loops)} unary-run loop(s) / {len({b for b, _ in exits})} accepting exit(s) found (expected one loop per push site)", key="terminator-count")
+    # (7), (7b), (8) — cursor bound at the end of the buffer, terminator read inside the buffer: decided semantically by
+    # clause_fit_partitions. The structural versions (cursor variable = first argument of the last div_mod_floor call, one
+    # unary loop per push site) fired when the unary run was moved into a helper and were withdrawn.
     # ---- compress_coefficient: layout per unary length
     cc = S.find("encoding::compress_coefficient")
     bad = []
@@ -310,6 +288,7 @@ def run(R):
     R.floor("push observations", len(pushes), 2)
     clause_padding_partitions(R)
     clause_negzero_partitions(R)
+    clause_fit_partitions(R)
 
 
 def clause_padding_partitions(R):
@@ -435,4 +414,62 @@ def clause_negzero_partitions(R):
             f"{len(bad)} partition(s): {bad[:3]}", key="negzero-partitions", data={"bad": bad[:10]})
     R.floor("negative-zero partitions run", nrun, 32)
     R.floor("+0 controls reaching Some", ctl, 16)
+    R.analysed.setdefault("unsupported", []).extend(S.unsupported[:5])
+
+
+def clause_fit_partitions(R):
+    """reader/writer agreement at the buffer's end, the missing terminator and the unary-run cap, semantically
+    (known-bits partitions of decompress's input; `?` = unknown bit):
+      accept (Some reachable):  last terminator ON the last buffer bit, after a non-empty run and after an empty run (n = 1, 2);
+                                a run of 94 zeros (the largest magnitude, 12159)
+      reject (only None):       buffer ends inside the unary run of the last coefficient (no terminator), for n = 1 and n = 2;
+                                buffer ends inside a non-final coefficient; a run of 95 zeros
+    These replace the earlier structural clauses (cursor bound at the last div_mod_floor call, one unary loop per push site),
+    which fired when the unary run was moved into a helper function."""
+    S = Session()
+    ctx = S.ctx
+    ctx.hooks["may_panic"] = lambda inst: False
+    ctx.hooks["exact_anyall"] = True
+    ctx.hooks["exact_collect_max"] = 8
+    dec = S.find("encoding::decompress")
+    ctx.hooks["unroll"] = lambda fr, h: 100 if fr.inst.name.startswith("falcon_rust::encoding::") else 0
+    ctx.hooks["rec_depth"] = 1
+    usz = ctx.usize_ty()
+    c9 = "0" + "0000001" + "1"                         # +1, nine bits
+    cases = [
+        ("n=1: terminator on the last bit after 7 zeros", 1, "????????" + "00000001", 0, True),
+        ("n=1: terminator on the last bit after 15 zeros", 1, "????????" + "0" * 15 + "1", 0, True),
+        ("n=2: second coefficient's terminator on the last bit, empty run", 2, "0" + "0000001" + "0" * 6 + "1" + "????????" + "1", 0, True),
+        ("n=2: second coefficient's terminator on the last bit after 8 zeros", 2, "0" + "0000001" + "0" * 6 + "1" + "????????" + "0" * 8 + "1", 0, True),
+        ("n=1: one byte of zero padding after the terminator", 1, "????????" + "1" + "0000000", 1 - 1, True),
+        ("n=1: run of 94 zeros", 1, "????????" + "0" * 94 + "1", 0, True),
+        ("n=2: run of 20 zeros in the first coefficient", 2, "????????" + "0" * 20 + "1" + c9, 0, True),
+        ("n=2: run of 94 zeros in the first coefficient", 2, "????????" + "0" * 94 + "1" + c9, 0, True),
+        ("n=3: run of 9 zeros in the second coefficient", 3, c9 + "????????" + "0" * 9 + "1" + c9, 0, True),
+        ("n=1: buffer ends inside the unary run", 1, "????????" + "00000000", 0, False),
+        ("n=1: buffer ends inside the unary run (two bytes of zeros)", 1, "????????" + "0" * 16, 0, False),
+        ("n=2: buffer ends inside the last coefficient's unary run", 2, c9 + "????????" + "0" * 7, 0, False),
+        ("n=2: buffer ends right after the last coefficient's low bits", 2, "0" + "0000001" + "0" * 7 + "1" + "????????", 0, False),
+        ("n=2: buffer ends inside the first coefficient's unary run", 2, "????????" + "0" * 8, 0, False),
+        ("n=3: buffer ends inside the second coefficient's unary run", 3, c9 + "????????" + "0" * 7, 0, False),
+        ("n=1: run of 95 zeros", 1, "????????" + "0" * 95 + "1", 0, False),
+        ("n=2: run of 95 zeros in the first coefficient", 2, "????????" + "0" * 95 + "1" + c9, 0, False),
+    ]
+    bad = []
+    for name, n, bits, extra, want in cases:
+        st = St()
+        x = S.cell(st, "x", bytes_from_bits(S, st, bits.replace(" ", ""), extra_unknown_bytes=0))
+        # padding bits produced by rounding up to a byte are unknown in bytes_from_bits; make them zero (valid padding)
+        pad = (-len(bits)) % 8
+        if pad:
+            st = St()
+            x = S.cell(st, "x", bytes_from_bits(S, st, bits + "0" * pad))
+        outs = S.run(dec, [x, ctx.const_int(st, n, usz)], st)
+        some = any(type(r) is En and 1 in r.vs for r, _ in outs)
+        if some != want:
+            bad.append(f"{name}: `Some` is {'reachable' if some else 'unreachable'}, expected {'reachable' if want else 'unreachable'}")
+    R.check(not bad, "C07-fit", "decompress: end-of-buffer / terminator / run-cap partitions (known-bits domain)",
+            f"{len(cases)} partitions: an encoding that fills the buffer exactly is readable, one without terminator or with a 95-zero run is not",
+            f"{len(bad)} partition(s): {bad[:3]}", key="fit-partitions", data={"bad": bad})
+    R.floor("fit partitions run", len(cases), 17)
     R.analysed.setdefault("unsupported", []).extend(S.unsupported[:5])
